@@ -1476,6 +1476,12 @@ def make_probe_baseline():
             k = np.arange(len(y))
             return y + 1000 * k + y[0] + 2 * y[-1], {'weights': 3 * w + 100 * k}
 
+        @_Algorithm._register(sort_keys=('weights',))
+        def cecho(self, data, weights=None, tol=None, lam=None):
+            y, w = self._setup_polynomial(data, weights)
+            k = np.arange(len(y))
+            return y + 1000 * k, {'weights': 3 * w + 100 * k + y}
+
         @_Algorithm._register
         def xecho(self, data):
             y, _ = self._setup_polynomial(data, None)
@@ -1789,6 +1795,51 @@ Definition ok (c : bool * list Z * list Z * list Z * list Z * bool) : bool :=
                '_get_function model and _algorithm_setup.py disagree')
 
 
+def correspondence_collab(ctx):
+    """collab_pls around an integer probe method against C02/CollabModel.v (own FIXED random stream)."""
+    import pybaselines.whittaker as whit
+    rng = random_fixed(21)
+    PB = make_probe_baseline()
+    lits = []
+    saved = getattr(whit, 'cecho', None)
+    whit.cecho = True
+    try:
+        for _ in range(ctx.n(40, 160)):
+            n = rng.choice([3, 4, 5, 7, 9])
+            x = rng.sample(range(-40, 40), n)
+            if rng.random() < 0.15:
+                x = sorted(x)
+            ys = [[4 * rng.randint(-5, 5) for _ in range(n)] for _ in range(2)]
+            avg = rng.random() < 0.5
+            with warnings.catch_warnings():
+                warnings.simplefilter('ignore')
+                b, prm = PB(np.array(x, dtype=float)).collab_pls(np.array(ys, dtype=float), average_dataset=avg,
+                                                                 method='cecho')
+            lits.append('(%s, %s, %s, %s, %s, %s)' % ('true' if avg else 'false', zlist(x), zlist2(ys),
+                                                      zlist(int_rows(prm['average_weights'])), zlist2(int_rows(b)),
+                                                      zlist2([int_rows(v) for v in prm['method_params']['weights']])))
+            ctx.case(('collab', avg, tuple(x), tuple(map(tuple, ys))), nontrivial=x != sorted(x), kind='corr:collab_pls')
+    finally:
+        if saved is None:
+            del whit.cecho
+        else:
+            whit.cecho = saved
+    eval_cases(ctx, 'collab', 'correspondence:collab_pls(average_weights,baselines,weights)',
+               HEADER2.replace('C02.OptModel.', 'C02.OptModel C02.CollabModel.'),
+               'bool * list Z * list (list Z) * list Z * list (list Z) * list (list Z)', lits, """
+Definition cb (xs ys : list Z) (ws : option (list Z)) : list Z * list Z :=
+  let n := length ys in
+  let w := match ws with Some w => w | None => repeat 1 n end in
+  (map (fun k => nth k ys 0 + 1000 * Z.of_nat k) (seq 0 n),
+   map (fun k => 3 * nth k w 0 + 100 * Z.of_nat k + nth k ys 0) (seq 0 n)).
+Definition zmean (l : list Z) : Z := fold_right Z.add 0 l / Z.of_nat (length l).
+Definition ok (c : bool * list Z * list (list Z) * list Z * list (list Z) * list (list Z)) : bool :=
+  let '(avg, x, ys, ew, eb, ews) := c in
+  let r := collab_pls Z 0 zmean cb cb avg x ys in
+  zl_eqb (fst r) ew && zll_eqb (map fst (snd r)) eb && zll_eqb (map snd (snd r)) ews.""",
+               'collab_pls model and optimizers.py disagree')
+
+
 # ------------------------------------------------------------------------------------------------ entry points
 def run(ctx):
     ctx.rule = ('oracle cases: (method, variant, N or shape, permutation) with distinct non-uniform x/z, random permutations '
@@ -1805,8 +1856,8 @@ def run(ctx):
         'the wrappers (1-D, 2-D), _get_function, _override_x + optimize_extended_range, adaptive_minmax (1-D, 2-D) and '
         'individual_axes are Gallina models proved equivariant and tied to the code by exact-integer correspondences '
         '(probe bodies through the REAL wrappers / optimizers; utils._get_edges and gaussian replaced by integer functions '
-        'of their arguments in the optimize_extended_range correspondence); custom_bc (3 statements pinned as text) and '
-        'collab_pls (no order statement) have no model and are covered by the oracle only',
+        'of their arguments in the optimize_extended_range correspondence); collab_pls is modelled and proved likewise '
+        '(C02/CollabModel.v); custom_bc (3 statements pinned as text) has no model and is covered by the oracle only',
         'numpy argsort(kind="mergesort") modelled as stable insertion sort (sampled with ties by the correspondence)',
         'float rounding: equality of sorted-run and permuted-run results is observed (bit-identical in 1-D), not proved',
         'ties in x/z are outside the equivariance theorem (the stable sort keeps the supplied order of equal keys)',
@@ -1819,6 +1870,7 @@ def run(ctx):
         correspondence(ctx)
         correspondence_opt(ctx)
         correspondence_get_function(ctx)
+        correspondence_collab(ctx)
     except Exception:   # noqa  -- a changed implementation may raise inside the recorders; the search still runs
         import traceback
         ctx.broke('correspondence:exception', traceback.format_exc()[-1200:])
